@@ -70,13 +70,19 @@ def frontend_exec_paths(cx, fe):
         for i, ev in enumerate(p.ev):
             t = U(ev.node) if isinstance(ev.node, ast.AST) and ev.kind == 'cond' else ''
             if ev.kind == 'cond' and ev.frame.fid == 0:
-                sub = U(ev._sub)
+                sub, pol = U(ev._sub), ev.a
+                while sub.startswith('not '):
+                    sub, pol = sub[4:].strip(), not pol
+                if sub.startswith('(') and sub.endswith(')'):
+                    sub = sub[1:-1]
                 if sub.endswith('.broadcast_enable'):
-                    fp.flags['broadcast_enable'] = ev.a
-                elif sub in ('request.unit_id == 0', '0 == request.unit_id', 'not request.unit_id'):
-                    fp.flags['unit0'] = ev.a if not sub.startswith('not') else (not ev.a)
+                    fp.flags['broadcast_enable'] = pol
+                elif sub in ('request.unit_id == 0', '0 == request.unit_id'):
+                    fp.flags['unit0'] = pol
+                elif sub in ('request.unit_id != 0', '0 != request.unit_id', 'request.unit_id'):
+                    fp.flags['unit0'] = not pol
                 elif sub.endswith('.ignore_missing_slaves'):
-                    fp.flags['ignore_missing'] = ev.a
+                    fp.flags['ignore_missing'] = pol
                 else:
                     fp.flags.setdefault('other', []).append((sub, ev.a))
             elif ev.kind == 'cond' and ev.frame.func is sendf:
